@@ -553,7 +553,7 @@ class BlockTag(Tag):
 
     @property
     def funcname(self):
-        return self.name or "__M_anon_%d" % (self.lineno,)
+        return self.name or "__M_anon_%d_%d" % (self.lineno, self.pos)
 
     def get_argument_expressions(self, **kw):
         return self.body_decl.get_argument_expressions(**kw)
